@@ -102,6 +102,8 @@ func (f *Fetcher) FetchData(ctx context.Context) (Data, error) {
 	if len(f.data.Cookie) == 0 {
 		err := f.exchangeKeys(ctx)
 		if err != nil {
+			// drop whatever a failed exchange left behind
+			f.data = Data{}
 			return Data{}, err
 		}
 	}
